@@ -45,9 +45,20 @@ func (ex *Exec) execCall(st *State, in *ssa.Call) {
 		}
 	}
 	if ex.con != nil && ex.con.Observe != nil {
-		if callee := in.Common().StaticCallee(); callee != nil && len(rs) > 0 {
-			if v, ok := ex.con.Observe[callee.Name()]; ok {
-				st.ghost["obs:"+v] = rs[0]
+		cn := ""
+		if callee := in.Common().StaticCallee(); callee != nil {
+			cn = callee.Name()
+		} else if in.Common().IsInvoke() {
+			cn = in.Common().Method.Name()
+		}
+		if v, ok := ex.con.Observe[cn]; ok && cn != "" && len(rs) > 0 {
+			st.ghost["obs:"+v] = rs[0]
+			ex.obsSeen[v] = true
+		}
+		// observe v := CALLEE#k  (k-th result, 0-based)
+		for k := 1; k < len(rs) && cn != ""; k++ {
+			if v, ok := ex.con.Observe[fmt.Sprintf("%s#%d", cn, k)]; ok {
+				st.ghost["obs:"+v] = rs[k]
 				ex.obsSeen[v] = true
 			}
 		}
@@ -144,6 +155,14 @@ func (ex *Exec) execCommon(st *State, c *ssa.CallCommon, site ssa.Value, pos tok
 		return ex.havocResults(st, sig, "r."+mname)
 	}
 	// call of a function value (closure, callback)
+	if cf := ex.localClosure(c.Value); cf != nil && len(cf.FreeVars) == 0 {
+		// an anonymous function that captures nothing and has its own contract is called like any other function
+		if con := ex.P.contractOf(cf); con != nil {
+			evalArgs()
+			ex.beforeHooks(st, cf.Name(), c, pos)
+			return ex.callByContract(st, cf, con, args, pos)
+		}
+	}
 	if cf := ex.localClosure(c.Value); cf != nil {
 		// a closure defined in this very function: it can write at most what its body (and the contracted
 		// functions it calls) syntactically writes; havoc exactly that instead of everything.
@@ -247,19 +266,7 @@ func (ex *Exec) execBuiltin(st *State, b *ssa.Builtin, c *ssa.CallCommon, site s
 			return []T{slLen(x)}
 		default:
 			if _, isMap := c.Args[0].Type().Underlying().(*types.Map); isMap {
-				dom, _, _, _ := ex.mapHeaps(st, c.Args[0].Type())
-				ks, _ := splitArraySort(arrayElem(dom.sort))
-				fn := "map.card." + sortSym(ks)
-				if !vc.declSet["f:"+fn] {
-					vc.ufun(fn, []Sort{arrayElem(dom.sort)}, SInt)
-					vc.axiom(fmt.Sprintf("(forall ((d %s)) (! (>= (%s d) 0) :pattern ((%s d))))", arrayElem(dom.sort), fn, fn))
-					vc.axiom(fmt.Sprintf("(= (%s ((as const %s) false)) 0)", fn, arrayElem(dom.sort)))
-					// adding an absent key / removing a present key changes the cardinality by one
-					vc.axiom(fmt.Sprintf("(forall ((d %s) (k %s)) (! (= (%s (store d k true)) (ite (select d k) (%s d) (+ (%s d) 1))) :pattern ((%s (store d k true)))))", arrayElem(dom.sort), ks, fn, fn, fn, fn))
-					vc.axiom(fmt.Sprintf("(forall ((d %s) (k %s)) (! (= (%s (store d k false)) (ite (select d k) (- (%s d) 1) (%s d))) :pattern ((%s (store d k false)))))", arrayElem(dom.sort), ks, fn, fn, fn, fn))
-					vc.axiom(fmt.Sprintf("(forall ((d %s) (k %s)) (! (=> (select d k) (> (%s d) 0)) :pattern ((select d k) (%s d))))", arrayElem(dom.sort), ks, fn, fn))
-				}
-				return []T{Ite(Eq(x, IntLit(0)), IntLit(0), mk(SInt, fn, Select(dom, x)))}
+				return []T{ex.mapCard(st, c.Args[0].Type(), x)}
 			}
 			r := vc.fresh("len", SInt)
 			vc.assume(st.guard, Ge(r, IntLit(0)))
@@ -694,4 +701,22 @@ func (ex *Exec) havocPkgHeaps(st *State, pkg string) {
 		}
 	}
 	ex.pkgHavocked[pkg] = true
+}
+
+// mapCard: len(m) of a map value: the cardinality of its key set (uninterpreted, with the axioms that matter:
+// non-negative, zero for the empty set, +-1 on insert/delete, positive when some key is present).
+func (ex *Exec) mapCard(st *State, mt types.Type, x T) T {
+	vc := ex.vc
+	dom, _, _, _ := ex.mapHeaps(st, mt)
+	ks, _ := splitArraySort(arrayElem(dom.sort))
+	fn := "map.card." + sortSym(ks)
+	if !vc.declSet["f:"+fn] {
+		vc.ufun(fn, []Sort{arrayElem(dom.sort)}, SInt)
+		vc.axiom(fmt.Sprintf("(forall ((d %s)) (! (>= (%s d) 0) :pattern ((%s d))))", arrayElem(dom.sort), fn, fn))
+		vc.axiom(fmt.Sprintf("(= (%s ((as const %s) false)) 0)", fn, arrayElem(dom.sort)))
+		vc.axiom(fmt.Sprintf("(forall ((d %s) (k %s)) (! (= (%s (store d k true)) (ite (select d k) (%s d) (+ (%s d) 1))) :pattern ((%s (store d k true)))))", arrayElem(dom.sort), ks, fn, fn, fn, fn))
+		vc.axiom(fmt.Sprintf("(forall ((d %s) (k %s)) (! (= (%s (store d k false)) (ite (select d k) (- (%s d) 1) (%s d))) :pattern ((%s (store d k false)))))", arrayElem(dom.sort), ks, fn, fn, fn, fn))
+		vc.axiom(fmt.Sprintf("(forall ((d %s) (k %s)) (! (=> (select d k) (> (%s d) 0)) :pattern ((select d k) (%s d))))", arrayElem(dom.sort), ks, fn, fn))
+	}
+	return Ite(Eq(x, IntLit(0)), IntLit(0), mk(SInt, fn, Select(dom, x)))
 }
